@@ -13,6 +13,7 @@ import (
 	lz4 "github.com/pierrec/lz4/v4"
 
 	"verifharness/gen"
+	"verifharness/inst"
 	"verifharness/ref"
 	"verifharness/stat"
 )
@@ -86,10 +87,19 @@ func runC19(c c19Case, rec *stat.Rec) *stat.Failure {
 	ru := c19Reused.Get().(*lz4.Reader)
 	defer c19Reused.Put(ru)
 	ru.Reset(bytes.NewReader(b))
-	return c19Reader(c, b, want, hasSize, size, ru, "reused")
+	if f := c19Reader(c, b, want, hasSize, size, ru, "reused"); f != nil {
+		return f
+	}
+	// and a long-lived Reader whose sources answer (0, nil) before every piece of data (legal for an io.Reader):
+	// whatever it counts about such reads must not add up across the streams it is Reset onto
+	rz := c19ReusedZ.Get().(*lz4.Reader)
+	defer c19ReusedZ.Put(rz)
+	rz.Reset(&inst.Source{Data: b, ZeroBurst: 1})
+	return c19Reader(c, b, want, hasSize, size, rz, "reused(empty-reads)")
 }
 
 var c19Reused = sync.Pool{New: func() interface{} { return lz4.NewReader(nil) }}
+var c19ReusedZ = sync.Pool{New: func() interface{} { return lz4.NewReader(nil) }}
 
 func c19Reader(c c19Case, b []byte, want string, hasSize bool, size uint64, r *lz4.Reader, kind string) *stat.Failure {
 	if got := r.Size(); got != 0 {
